@@ -194,7 +194,7 @@ impl Property for C04 {
         vec!["the Vfs is driven directly (it is a public type); the analysis layers above it do not touch the trees".into()]
     }
     fn cases(&self, tier: Tier) -> u32 {
-        tier.pick(30_000, 3_000_000)
+        tier.pick(60_000, 3_000_000)
     }
     fn stack_bytes(&self) -> usize {
         64 << 20
